@@ -28,15 +28,19 @@ func init() { props["C14"] = runC14 }
 
 // outcome of one constructor attempt
 type built struct {
-	ctorOK   bool
-	validOK  bool // Validate() on the constructed value (meaningful only if ctorOK)
-	bytes    []byte
-	bytesOK  bool
-	reparse  func(b []byte) (ok bool, rem []byte, again []byte) // parse + re-serialise
+	ctorOK  bool
+	validOK bool // Validate() on the constructed value (meaningful only if ctorOK)
+	bytes   []byte
+	bytesOK bool
+	reparse func(b []byte) (ok bool, rem []byte, again []byte) // parse + re-serialise
 }
 
 // the C14 chain for a value that was constructed successfully
-func c14Chain(c *Ctx, name string, arg []byte, b built, classCtorNotValid string) {
+func c14Chain(c *Ctx, name string, arg []byte, b built, classCtorNotValid string, classRT ...string) {
+	rtClass := ""
+	if len(classRT) > 0 {
+		rtClass = classRT[0]
+	}
 	if !b.ctorOK {
 		return
 	}
@@ -49,7 +53,7 @@ func c14Chain(c *Ctx, name string, arg []byte, b built, classCtorNotValid string
 		return
 	}
 	ok, rem, again := b.reparse(b.bytes)
-	c.Check("valid_value_round_trips", ok && len(rem) == 0 && bytes.Equal(again, b.bytes), name, [][]byte{b.bytes}, "",
+	c.Check("valid_value_round_trips", ok && len(rem) == 0 && bytes.Equal(again, b.bytes), name, [][]byte{b.bytes}, rtClass,
 		fmt.Sprintf("parse ok=%v remainder=%d reserialised equal=%v", ok, len(rem), bytes.Equal(again, b.bytes)))
 }
 
@@ -94,6 +98,73 @@ func runC14(c *Ctx) {
 			c14Defect(c, "GoMapToMapping", fmt.Sprintf("mapping of %d bytes (limit 65535)", real), err != nil, nil, "")
 		} else {
 			c.Check("valid_arguments_accepted", err == nil, "GoMapToMapping(limit)", [][]byte{i64(int64(real))}, "", fmt.Sprintf("%d-byte mapping rejected", real))
+		}
+	}
+	// ---------- KeysAndCert over EVERY (signing, crypto) pair known to the size tables, not
+	// only the pairs the wire reader supports: a value the constructor returns and Validate()
+	// accepts must parse back (finding D22 for the pairs the reader cannot construct)
+	for _, s := range []int{0, 1, 2, 3, 4, 5, 6, 7, 8, 11} {
+		for cr := 0; cr <= 7; cr++ {
+			for variant := 0; variant < 2; variant++ {
+				kc, err := key_certificate.NewKeyCertificateWithTypes(s, cr)
+				if variant == 1 {
+					// the same types with excess key data / surplus payload in the key certificate
+					extra := r.Bytes(1 + r.Intn(9))
+					kc, _, err = key_certificate.NewKeyCertificate(cat([]byte{5}, u16(4+len(extra)), u16(s), u16(cr), extra))
+				}
+				if err != nil || kc == nil {
+					continue
+				}
+				cs, ss := kc.CryptoSize(), kc.SigningPublicKeySize()
+				if 384-cs-ss < 0 {
+					continue
+				}
+				pubB, padB, spkB := r.Bytes(cs), r.Bytes(384-cs-ss), r.Bytes(ss)
+				var k *keys_and_cert.KeysAndCert
+				var kerr error
+				c.Case(E_NewKeysAndCertFromParts, [][]byte{kc.Bytes(), pubB, padB, spkB}, func() Obs {
+					k, kerr = keys_and_cert.NewKeysAndCert(kc, fakeKey{pubB}, padB, fakeSPKT{spkB})
+					if kerr != nil {
+						return ERR()
+					}
+					bs, be := k.Bytes()
+					if be != nil {
+						bs = nil
+					}
+					return OK(bool1(k.Validate() == nil), bs)
+				})
+				b := built{ctorOK: kerr == nil, reparse: func(b []byte) (bool, []byte, []byte) {
+					var p Parsed
+					for i := range parsers {
+						if parsers[i].Name == "ReadKeysAndCert" {
+							p = runParser(c, &parsers[i], b, nil)
+						}
+					}
+					if !p.OK {
+						return false, nil, nil
+					}
+					again, _ := p.Val.(*keys_and_cert.KeysAndCert).Bytes()
+					return true, p.Rem, again
+				}}
+				if kerr == nil {
+					b.validOK = k.Validate() == nil
+					b.bytes, err = k.Bytes()
+					b.bytesOK = err == nil
+				}
+				supported := false
+				for _, x := range libSigSupported {
+					for _, y := range libCryptoSupported {
+						if x == s && y == cr {
+							supported = true
+						}
+					}
+				}
+				class := ""
+				if !supported {
+					class = "kac-unparseable-types"
+				}
+				c14Chain(c, "NewKeysAndCert(all known types)", cat(u16(s), u16(cr), []byte{byte(variant)}), b, "", class)
+			}
 		}
 	}
 	for i := 0; i < n; i++ {
